@@ -26,6 +26,7 @@ import (
 
 	ocispec "github.com/opencontainers/image-spec/specs-go/v1"
 	oras "oras.land/oras-go/v2"
+	"oras.land/oras-go/v2/content"
 	"oras.land/oras-go/v2/content/oci"
 	"oras.land/oras-go/v2/errdef"
 	"oras.land/oras-go/v2/verifharness/copymon"
@@ -418,6 +419,14 @@ func runCase(phase string, i int) worker.Result {
 		}
 		srcTarget = s
 	}
+	if pf, ok := srcTarget.(content.PredecessorFinder); ok && strings.HasPrefix(kind, "oci-reopen") && rng.IntN(2) == 0 {
+		// the first graph-using call on the reopened layout carries a context that is already over
+		// (an earlier, abandoned attempt): later calls with a live context must see the whole graph
+		cctx, ccancel := context.WithCancel(ctx)
+		ccancel()
+		_, _ = pf.Predecessors(cctx, g.Nodes[start].Desc)
+		res.Count("reopened_sources_first_used_under_a_cancelled_context", 1)
+	}
 	dh, err := stores.New("memory", nil)
 	if err != nil {
 		res.Violate("harness:setup", err.Error(), nil)
@@ -500,6 +509,20 @@ func runCase(phase string, i int) worker.Result {
 	gopts.Concurrency = conc
 	gopts.Depth = depth
 	m.Hooks(&gopts.CopyGraphOptions)
+	// a chain of filters that keep everything, installed before the real one, and a copy of the
+	// options value that gets another filter afterwards: copies must not influence each other
+	chain := 0
+	var otherOpts *oras.ExtendedCopyGraphOptions
+	if rng.IntN(4) == 0 {
+		chain = 1 + rng.IntN(7)
+		for j := 0; j < chain; j++ {
+			gopts.FilterArtifactType(regexp.MustCompile(""))
+		}
+		other := gopts
+		otherOpts = &other
+		res.Count("filter_chains_with_copied_options", 1)
+		res.MaxOf("max_filter_chain", int64(chain+1))
+	}
 	switch f.Kind {
 	case "artifactType":
 		gopts.FilterArtifactType(regexp.MustCompile(f.Regex))
@@ -509,6 +532,12 @@ func runCase(phase string, i int) worker.Result {
 		} else {
 			gopts.FilterAnnotation(f.Key, regexp.MustCompile(f.Regex))
 		}
+	}
+	if otherOpts != nil {
+		if f.Kind == "" {
+			gopts.FilterArtifactType(regexp.MustCompile("")) // one more keep-all filter on the value that is used
+		}
+		otherOpts.FilterAnnotation("org.test.never-present", nil) // the copy is extended last and never used
 	}
 	witness := func() map[string]any {
 		return map[string]any{"source": kind, "api": api, "src_ref": srcRef, "dst_ref": dstRef, "start": start, "depth": depth, "filter": f, "enriched_descriptors": enriched, "source_populated_concurrently": concurrentPopulation, "registry_profile": prof, "concurrency": conc, "prepopulated": prepop, "referrers_fault_injected": faultHit,
